@@ -49,6 +49,6 @@ def shrink_candidates(c):
     for i in range(n):
         d = dict(c); d["db"] = db[:i] + db[i + 1:]; yield d
 
-LEVEL_TEXT = "placeholder"
-LEVEL_NOTE = "placeholder"
+LEVEL_TEXT = "The repaired engine's model is a function with no schedule argument; theorems (Props/C02.v): sorting the keys of a map erases the iteration order, the ranking sort is a permutation, two evaluations agree. The tie to the code is the substance: every case is answered 8x on one Database and 3x on an independently loaded copy (plus 4x GetSuggestions) and all answers must be bit-identical; tie-heavy databases with limits cutting through ties and the shipped 6,619-entry database are included."
+LEVEL_NOTE = "Partial: the Go runtime's map randomisation is sampled by repetition, not enumerated. Trusted: Coq kernel; harness."
 TECHNIQUE = "Coq proof (determinism of the engine model: no schedule argument; stable sort is a function) + differential correspondence"
